@@ -338,7 +338,9 @@ def orchestrate(prop: str, tier: str, seed: int, jobs: int) -> int:
     os.makedirs(outdir, exist_ok=True)
     env = dict(os.environ)
     env["PYTHONDONTWRITEBYTECODE"] = "1"
-    env.setdefault("PYTHONHASHSEED", "0")
+    # every shard runs under its own (reproducible) string-hash seed, so that a dependence on set /
+    # dict iteration order shows in some shard; an explicit PYTHONHASHSEED of the caller wins
+    vary_hash = "PYTHONHASHSEED" not in os.environ
     env["PYTHONPATH"] = VERIF + (os.pathsep + env["PYTHONPATH"] if env.get("PYTHONPATH") else "")
     for k in ("OMP_NUM_THREADS", "OPENBLAS_NUM_THREADS", "MKL_NUM_THREADS"):
         env.setdefault(k, "1")
@@ -353,6 +355,8 @@ def orchestrate(prop: str, tier: str, seed: int, jobs: int) -> int:
             log = open(os.path.join(outdir, f"shard{k}.log"), "w")
             cmd = [sys.executable, "-m", "rv.check", prop, "--tier", tier, "--seed", str(seed),
                    "--shard", str(k), "--nshards", str(nshards), "--shard-out", out]
+            if vary_hash:
+                env["PYTHONHASHSEED"] = str(derive_seed(seed, prop, "hash", k) % 4294967295)
             p = subprocess.Popen(cmd, cwd=VERIF, env=env, stdout=log, stderr=subprocess.STDOUT)
             running.append((k, p, time.time(), out, log))
         time.sleep(0.05)
